@@ -102,6 +102,19 @@ func (e *Env) eval(ex contract.Expr) Val {
 	case *contract.Old:
 		sub := *e
 		sub.st = e.old
+		if e.locals {
+			// inside old(), parameter names denote their entry values
+			sub.locals = false
+			sub.vars = map[string]Val{}
+			for k, v := range e.vars {
+				sub.vars[k] = v
+			}
+			for k, v := range e.x.params {
+				if _, ok := sub.vars[k]; !ok {
+					sub.vars[k] = v
+				}
+			}
+		}
 		return sub.eval(n.X)
 	case *contract.Unary:
 		if n.Op == "*" {
@@ -618,6 +631,15 @@ func (e *Env) call(n *contract.Call) Val {
 			e.fail("select on non-ghost array")
 		}
 		return VMath{term.Select(a.T, e.evalInt(n.Args[1]))}
+	case "arrcopy":
+		// arrcopy(m, at, src): ghost array m with len(src) elements of slice src written at offset at
+		return e.arrCopy(n)
+	case "putbits":
+		// putbits(m, at, v, w): ghost bit array m with the low w bits of v written msb-first at offset at
+		return e.putBits(n)
+	case "constmap":
+		v, _ := scalar(e.eval(n.Args[0]))
+		return VMath{term.ConstArr(term.Arr(term.Int, v.Sort), v)}
 	case "emod":
 		return VT{term.EMod(e.evalInt(n.Args[0]), e.evalInt(n.Args[1])), tyInt}
 	case "ediv":
@@ -771,3 +793,66 @@ func (e *Env) parseType(s string) types.Type {
 }
 
 var _ = token.NoPos
+
+func (e *Env) arrCopy(n *contract.Call) Val {
+	m, ok := e.eval(n.Args[0]).(VMath)
+	if !ok || m.T.Sort.K != term.KArr {
+		e.fail("arrcopy: first argument must be a ghost array")
+	}
+	at := e.evalInt(n.Args[1])
+	src, ok := e.eval(n.Args[2]).(VSlice)
+	if !ok {
+		e.fail("arrcopy: third argument must be a slice")
+	}
+	et := src.Ty.Underlying().(*types.Slice).Elem()
+	get := func(i *T) *T {
+		v, ok := scalar(e.x.loadAt(e.st, "e:"+typeKey(et), "", et, src.Ref, term.Add(src.Off, i)))
+		if !ok {
+			e.fail("arrcopy: non-scalar elements")
+		}
+		return v
+	}
+	if k, ok := src.Len.Int64(); ok && k <= 4096 {
+		r := m.T
+		for i := int64(0); i < k; i++ {
+			r = term.Store(r, term.Add(at, term.I(i)), get(term.I(i)))
+		}
+		return VMath{r}
+	}
+	na := term.Fresh("arrcopy", m.T.Sort)
+	j := term.Bound("j", term.Int)
+	in := term.And(term.Le(at, j), term.Lt(j, term.Add(at, src.Len)))
+	e.x.assumeOnce(term.ForallPat([]*T{j}, term.Eq(term.Select(na, j), term.Ite(in, get(term.Sub(j, at)), term.Select(m.T, j))), [][]*T{{term.Select(na, j)}}))
+	return VMath{na}
+}
+
+// bitOfInt is the term the executor builds for ((v >> k) & 1) == 1.
+func bitOfInt(v, k *T) *T {
+	if c, ok := k.Int64(); ok {
+		return term.Eq(term.EMod(term.EDiv(v, pow2(c)), term.I(2)), term.I(1))
+	}
+	return term.Eq(term.EMod(term.AppH(fShr, v, k), term.I(2)), term.I(1))
+}
+
+func (e *Env) putBits(n *contract.Call) Val {
+	m, ok := e.eval(n.Args[0]).(VMath)
+	if !ok || m.T.Sort != term.Arr(term.Int, term.Bool) {
+		e.fail("putbits: first argument must be a ghost bit array")
+	}
+	at := e.evalInt(n.Args[1])
+	v := e.evalInt(n.Args[2])
+	w := e.evalInt(n.Args[3])
+	if k, ok := w.Int64(); ok && k <= 64 {
+		r := m.T
+		for i := int64(0); i < k; i++ {
+			r = term.Store(r, term.Add(at, term.I(i)), bitOfInt(v, term.I(k-1-i)))
+		}
+		return VMath{r}
+	}
+	na := term.Fresh("putbits", m.T.Sort)
+	j := term.Bound("j", term.Int)
+	in := term.And(term.Le(at, j), term.Lt(j, term.Add(at, w)))
+	e.x.assumeOnce(term.ForallPat([]*T{j}, term.Eq(term.Select(na, j),
+		term.Ite(in, bitOfInt(v, term.Sub(term.Add(at, w), term.Add(j, term.I(1)))), term.Select(m.T, j))), [][]*T{{term.Select(na, j)}}))
+	return VMath{na}
+}
